@@ -166,10 +166,17 @@ func depsOf(name string, deps packageDeclsDeps) []*ast.Identifier {
 
 func checkDepsPath(path []*ast.Identifier, deps packageDeclsDeps) []*ast.Identifier {
 	last := path[len(path)-1]
+deps:
 	for _, dep := range depsOf(last.Name, deps) {
-		for _, p := range path {
+		if dep.Name == path[0].Name {
+			return append(path, dep)
+		}
+		for _, p := range path[1:] {
 			if p.Name == dep.Name {
-				return append(path, dep)
+				// A cycle that does not go through path[0] (for example
+				// recursive functions): it is reported, if it is a loop
+				// at all, when the search starts from one of its members.
+				continue deps
 			}
 		}
 		loopPath := checkDepsPath(append(path, dep), deps)
